@@ -434,8 +434,11 @@ def compare_signal(s1, s2, ignore=None):
                 "changed", "unit", s1, [
                     s1.unit, s2.unit]))
     if "comment" not in ignore:
-        if s1.comment is not None and s2.comment is not None and s1.comment != s2.comment:
-            if s1.comment.replace("\n", " ") != s2.comment.replace("\n", " "):
+        # a missing comment counts as an empty one (as in compare_frame), so that an added or removed comment is reported
+        comment1 = s1.comment if s1.comment is not None else ""
+        comment2 = s2.comment if s2.comment is not None else ""
+        if comment1 != comment2:
+            if comment1.replace("\n", " ") != comment2.replace("\n", " "):
                 result.add_child(
                     CompareResult(
                         "changed", "comment", s1, [
